@@ -877,16 +877,23 @@ def violations_of(fn, call):
     return judge(fn, call, obs[0][0], obs[0][1])
 
 
+def measure(fn, call):
+    """lexicographic: canonical argument kinds first (plain positional, positional-or-keyword, is_of_type), then size"""
+    return (sum(it[0] != "pos" for it in call), sum(p[1] != "pk" for p in fn["params"]),
+            sum(1 for n, _ in prims_of(fn["body"]) if n == "compare"), size_of(fn, call))
+
+
 def minimise(fn, call, cls):
-    """greedy: accept any variant that is smaller and still shows a violation of class cls = (oracle, output, direction)"""
+    """greedy descent on measure(): accept a variant that still shows a violation of class cls = (oracle, output, direction)"""
     budget = MIN_BUDGET
     improved = True
     while improved and budget > 0:
         improved = False
+        cur = measure(fn, call)
         for nf, nc in case_variants(fn, call):
             if budget <= 0:
                 break
-            if size_of(nf, nc) >= size_of(fn, call) and (nf, nc) != (fn, call) and not _more_canonical(fn, call, nf, nc):
+            if not measure(nf, nc) < cur:
                 continue
             budget -= 1
             try:
@@ -897,13 +904,6 @@ def minimise(fn, call, cls):
                 fn, call, improved = nf, nc, True
                 break
     return fn, call, budget > 0
-
-
-def _more_canonical(fn, call, nf, nc) -> bool:
-    def score(f, c):
-        return (sum(it[0] != "pos" for it in c), sum(p[1] != "pk" for p in f["params"]),
-                sum(1 for n, _ in prims_of(f["body"]) if n == "compare"))
-    return score(nf, nc) < score(fn, call)
 
 
 def mechanism_key(v) -> str:
